@@ -58,6 +58,9 @@ def replaceN (s old new : Str) (n : Int) : Str :=
 /-- `str(x)` for the float with identity `fid` (floats are opaque atoms; any fixed function will do) -/
 def strOfFloat (fid : Int) : Str := [102, 108, 111, 97, 116, 35] ++ strOfInt fid
 
+/-- `k % 3` -/
+def mod3 (k : Int) : Int := k % 3
+
 /-- `s[:-1]` -/
 def dropLast1 (s : Str) : Str := s.dropLast
 
